@@ -16,14 +16,12 @@ import (
 )
 
 const Rule = "cases = (implementation, op sequence) drawn from VERIF_SEED, every stream run on both tries: keys of " +
-	"1-5 bytes over {a,b} (dense prefix relations), over {00,7f,80,ff,a,*} and over {a,b,*}; all mutators; every " +
-	"query with present / absent / prefix-of-held / extension-of-held / empty arguments; patterns with * at every " +
-	"position; a state dump after every mutator; non-trivial = the history deletes (Delete/DeleteMin/DeleteMax) a " +
+	"1-5 bytes over small alphabets whose letters differ in exactly one bit at each bit position ({a,b}, {b,c}, {a,c}, " +
+	"{a,b,c,d}, {00,01}, {7f,ff}, {80,00}, 'a' with each bit flipped) and over {00,7f,80,ff,a,*}, {a,b,*}; all mutators; " +
+	"every query with present / absent / prefix-of-held / extension-of-held / empty arguments; WithPrefix, " +
+	"LongestPrefixOf and Match for every prefix of held keys and every one-letter variation, patterns with * at every " +
+	"position; every insertion order of small key sets; a state dump after every mutator; non-trivial = the history deletes (Delete/DeleteMin/DeleteMax) a " +
 	"held key that is a proper prefix or a proper extension of another held key; distinct = distinct (header, op list)"
-
-// SigNulClash is the one known-finding signature of C06: Patricia keys are bit strings padded with zero
-// bits, so two keys that differ only by trailing 0x00 bytes cannot both be stored.
-const SigNulClash = "put_key_equals_held_key_up_to_trailing_nul"
 
 type kv struct {
 	k string
@@ -213,6 +211,9 @@ func Exec(c hx.Case) hx.Result {
 					}
 					if strings.ContainsRune(k, 0) {
 						tags["key-with-00"] = true
+					}
+					if o.nulClash(k) {
+						tags["put-key-equal-to-held-key-up-to-trailing-00"] = true
 					}
 					if strings.IndexFunc(k, func(r rune) bool { return r >= 0x80 }) >= 0 || !isASCII(k) {
 						tags["key-with-byte>=80"] = true
@@ -444,11 +445,7 @@ func Exec(c hx.Case) hx.Result {
 		}
 		if kind != "" {
 			res.Outs = append(res.Outs, "panic")
-			sig := ""
-			if comp == "patricia" && len(f) == 3 && f[0] == "put" && o.nulClash(key(f[1])) {
-				sig = SigNulClash
-			}
-			bad(i, sig, "%s panicked (%s)", op, kind)
+			bad(i, "", "%s panicked (%s)", op, kind)
 			break
 		}
 		res.Outs = append(res.Outs, out)
@@ -487,19 +484,31 @@ func optInt(v int, ok bool) string {
 
 // ---------------------------------------------------------------- generators
 
+// alphabets: small, so that prefix relations are dense, and chosen so that letters differ in exactly one bit at
+// every bit position of a byte (the Patricia trie branches on single bits: "bc" differ in the last bit only, "ac" in
+// the seventh, "7fff" in the first, "flip" holds 'a' and 'a' with each single bit flipped)
 var alphabets = map[string][]byte{
 	"ab":     []byte("ab"),
+	"bc":     []byte("bc"),
+	"ac":     []byte("ac"),
+	"abcd":   []byte("abcd"),
+	"0001":   {0x00, 0x01},
+	"7fff":   {0x7f, 0xff},
+	"8000":   {0x80, 0x00},
+	"flip":   {0x61, 0x60, 0x63, 0x65, 0x69, 0x71, 0x41, 0x21, 0xe1},
 	"bytes":  {0x00, 0x7f, 0x80, 0xff, 'a', '*'},
 	"abstar": []byte("ab*"),
 }
+
+var alphabetNames = []string{"ab", "bc", "ac", "abcd", "0001", "7fff", "8000", "flip", "bytes", "abstar"}
 
 type gen struct {
 	r      *hx.Rand
 	al     []byte
 	maxLen int
-	held   *oracle // what the history holds so far (to aim arguments and to steer clear of the known finding)
+	held   *oracle // what the history holds so far (to aim arguments)
 	ops    []string
-	clash  bool // allow Patricia's trailing-NUL clash (dedicated stream only)
+	clash  bool // aim at keys equal up to trailing 0x00 bytes
 }
 
 func (g *gen) randKey() string {
@@ -564,20 +573,13 @@ func (g *gen) mutate() {
 			k = g.arg(false) // re-put a held key, or put a prefix / an extension of one
 		}
 		if g.clash && len(g.held.keys) > 0 && g.r.Chance(1, 3) {
-			// aim at the known finding: a held key with 0x00 appended, or with its trailing 0x00 bytes removed
+			// aim at keys that differ by trailing 0x00 bytes only (D9e): a held key with 0x00 appended, or with its
+			// trailing 0x00 bytes removed
 			h := hx.Pick(g.r, g.held.keys)
 			if t := trimNul(h); t != h && t != "" && g.r.Bool() {
 				k = t
 			} else {
 				k = h + "\x00"
-			}
-		}
-		if !g.clash {
-			for tries := 0; g.held.nulClash(k) && tries < 20; tries++ {
-				k = g.randKey()
-			}
-			if g.held.nulClash(k) {
-				return
 			}
 		}
 		v := g.r.Intn(100)
@@ -661,6 +663,74 @@ func (g *gen) battery() {
 	g.emit("match %s", enc(g.pattern()))
 }
 
+// variations of k: k itself and k with each single position replaced by every other letter of the alphabet
+func (g *gen) variations(k string) []string {
+	out := []string{k}
+	for i := 0; i < len(k); i++ {
+		for _, c := range g.al {
+			if c != k[i] {
+				b := []byte(k)
+				b[i] = c
+				out = append(out, string(b))
+			}
+		}
+	}
+	return out
+}
+
+// denseBattery: the string queries for every prefix of every held key (at most `limit` keys) and every one-letter
+// variation of it; every one-letter extension for LongestPrefixOf; Match with a wildcard at each position of the key and
+// of its variations.
+func (g *gen) denseBattery(limit int) {
+	keys := g.held.keys
+	if len(keys) > limit {
+		i := g.r.Intn(len(keys) - limit + 1)
+		keys = keys[i : i+limit]
+	}
+	seenP, seenL, seenM := map[string]bool{}, map[string]bool{}, map[string]bool{}
+	g.emit("withprefix -")
+	g.emit("longestprefixof -")
+	for _, h := range keys {
+		for n := 1; n <= len(h); n++ {
+			for _, p := range g.variations(h[:n]) {
+				if !seenP[p] {
+					seenP[p] = true
+					g.emit("withprefix %s", enc(p))
+				}
+				if !seenL[p] {
+					seenL[p] = true
+					g.emit("longestprefixof %s", enc(p))
+				}
+			}
+		}
+		for _, c := range g.al {
+			if e := h + string(c); !seenL[e] {
+				seenL[e] = true
+				g.emit("longestprefixof %s", enc(e))
+			}
+		}
+		pats := []string{strings.Repeat("*", len(h))}
+		for _, vk := range g.variations(h) {
+			pats = append(pats, vk)
+			for i := 0; i < len(vk); i++ {
+				b := []byte(vk)
+				b[i] = '*'
+				pats = append(pats, string(b))
+			}
+		}
+		if len(h) > 1 {
+			pats = append(pats, h[:len(h)-1], h[:len(h)-1]+"*", "*"+h[1:])
+		}
+		pats = append(pats, h+"*")
+		for _, p := range pats {
+			if !seenM[p] {
+				seenM[p] = true
+				g.emit("match %s", enc(p))
+			}
+		}
+	}
+}
+
 func genOps(r *hx.Rand, alpha string, n int, clash bool) []string {
 	g := &gen{r: r, al: alphabets[alpha], maxLen: 4, held: newOracle(), clash: clash}
 	if alpha == "ab" {
@@ -672,11 +742,14 @@ func genOps(r *hx.Rand, alpha string, n int, clash bool) []string {
 			g.mutate()
 		case x < 94:
 			g.query()
-		default:
+		case x < 97:
 			g.battery()
+		default:
+			g.denseBattery(3)
 		}
 	}
 	g.battery()
+	g.denseBattery(6)
 	return g.ops
 }
 
@@ -717,8 +790,10 @@ func exhaustive(alpha []string, n int, f func([]string)) {
 	}
 }
 
-// fixedBattery: every query with every argument of a small universe (used after exhaustive histories).
-func fixedBattery(universe []string) []string {
+// fixedBattery: every query with every argument of a small universe over the letters x < y (used after exhaustive
+// histories and insertion orders).
+func fixedBattery(universe []string, x, y byte) []string {
+	X, Y := string(x), string(y)
 	ops := []string{"dump", "size", "all", "min", "max"}
 	args := append([]string{""}, universe...)
 	for _, a := range args {
@@ -729,17 +804,52 @@ func fixedBattery(universe []string) []string {
 			ops = append(ops, q+" "+enc(a))
 		}
 	}
-	for _, p := range []string{"*", "**", "a*", "*b", "***", "a**", "*b*", "**b"} {
+	for _, p := range []string{"*", "**", X + "*", "*" + Y, "*" + X, Y + "*", "***", X + "**", "*" + Y + "*", "**" + Y, X + "*" + X} {
 		ops = append(ops, "match "+enc(p))
+	}
+	for _, p := range []string{X + Y + X + Y, Y + Y + Y, X + X + X, Y + X + X} {
+		ops = append(ops, "longestprefixof "+enc(p), "withprefix "+enc(p))
 	}
 	for i := -1; i <= 3; i++ {
 		ops = append(ops, fmt.Sprintf("select %d", i))
 	}
-	for _, lohi := range [][2]string{{"", "b"}, {"a", "ab"}, {"aa", "b"}, {"ab", "a"}, {"b", "bb"}} {
+	for _, lohi := range [][2]string{{"", Y}, {X, X + Y}, {X + X, Y}, {X + Y, X}, {Y, Y + Y}} {
 		ops = append(ops, "range "+enc(lohi[0])+" "+enc(lohi[1]), "rangesize "+enc(lohi[0])+" "+enc(lohi[1]))
 	}
 	return ops
 }
+
+// universeOf: the six keys x, y, xx, xy, yx, xyx
+func universeOf(x, y byte) []string {
+	X, Y := string(x), string(y)
+	return []string{X, Y, X + X, X + Y, Y + X, X + Y + X}
+}
+
+// orders calls f with every ordered selection of k distinct elements of xs.
+func orders(xs []string, k int, f func([]string)) {
+	used := make([]bool, len(xs))
+	cur := []string{}
+	var rec func()
+	rec = func() {
+		if len(cur) == k {
+			f(append([]string{}, cur...))
+			return
+		}
+		for i, x := range xs {
+			if !used[i] {
+				used[i] = true
+				cur = append(cur, x)
+				rec()
+				cur = cur[:len(cur)-1]
+				used[i] = false
+			}
+		}
+	}
+	rec()
+}
+
+// letter pairs whose members differ in exactly one bit, one pair per bit position, plus {a,b}
+var pairs = [][2]byte{{'b', 'c'}, {'a', 'c'}, {'a', 'e'}, {'a', 'i'}, {'a', 'q'}, {'A', 'a'}, {'!', 'a'}, {0x7f, 0xff}, {'a', 'b'}, {0x01, 0x02}}
 
 func Main(run *hx.Run) {
 	run.Stats.Rule = Rule
@@ -749,26 +859,47 @@ func Main(run *hx.Run) {
 			run.Do(hx.HeaderGet(c.Header, "comp"), c, Exec)
 		}
 	}
-	for _, alpha := range []string{"ab", "bytes", "abstar"} {
+	for _, alpha := range alphabetNames {
 		r := run.R.Fork(alpha)
-		n := run.Scale(120)
+		n := run.Scale(40)
 		for k := 0; k < n; k++ {
-			length := r.Range(10, 120)
+			length := r.Range(10, 100)
 			both(run, "alpha="+alpha, genOps(r, alpha, length, false))
 		}
 	}
-	// the neighbourhood of the known finding (Patricia: keys equal up to trailing 0x00): a fixed, small number
-	// of cases, so that the finding cannot crowd other violations out of the report
+	// every insertion order of every set of up to 3 (thorough: 5) keys out of x, y, xx, xy, yx, xyx, for letter pairs
+	// differing in one bit at each bit position, followed by every query with every argument of the universe
 	{
-		r := run.R.Fork("nulclash")
-		for k := 0; k < 6; k++ {
-			both(run, "alpha=bytes stream=nulclash", genOps(r, "bytes", r.Range(20, 60), true))
+		maxSet := 3
+		if run.Thorough() {
+			maxSet = 5
+		}
+		for _, pr := range pairs {
+			u := universeOf(pr[0], pr[1])
+			bat := fixedBattery(u, pr[0], pr[1])
+			for k := 1; k <= maxSet; k++ {
+				orders(u, k, func(keys []string) {
+					var ops []string
+					for i, key := range keys {
+						ops = append(ops, fmt.Sprintf("put %s %d", enc(key), i+1))
+					}
+					both(run, fmt.Sprintf("alpha=%02x%02x stream=orders", pr[0], pr[1]), append(ops, bat...))
+				})
+			}
+		}
+		run.Stats.Extra["insertion_orders"] = fmt.Sprintf("all ordered selections of up to %d of the keys x,y,xx,xy,yx,xyx for %d letter pairs, both tries", maxSet, len(pairs))
+	}
+	// keys equal up to trailing 0x00 bytes (D9e): the zero-padded bit strings coincide, only the length positions differ
+	for _, alpha := range []string{"bytes", "0001", "8000"} {
+		r := run.R.Fork("nul-" + alpha)
+		for k := 0; k < run.Scale(15); k++ {
+			both(run, "alpha="+alpha+" stream=trailing-nul", genOps(r, alpha, r.Range(20, 60), true))
 		}
 	}
 	if run.Thorough() {
-		// every history of length ≤ 4 over put/delete of six {a,b}-keys + DeleteMin + DeleteMax, each followed
+		// every history of length ≤ 4 over put/delete of six {b,c}-keys (the letters differ in the last bit only) + DeleteMin + DeleteMax, each followed
 		// by every query with every argument of the universe
-		universe := []string{"a", "b", "aa", "ab", "ba", "aba"}
+		universe := universeOf('b', 'c')
 		var alpha []string
 		for i, k := range universe {
 			alpha = append(alpha, fmt.Sprintf("put %s %d", enc(k), i+1))
@@ -777,18 +908,18 @@ func Main(run *hx.Run) {
 			alpha = append(alpha, "delete "+enc(k))
 		}
 		alpha = append(alpha, "deletemin", "deletemax")
-		bat := fixedBattery(universe)
+		bat := fixedBattery(universe, 'b', 'c')
 		for n := 1; n <= 4; n++ {
 			exhaustive(alpha, n, func(ops []string) {
 				var full []string
 				for _, op := range ops {
 					full = append(full, op, "dump")
 				}
-				both(run, "alpha=ab stream=exhaustive", append(full, bat...))
+				both(run, "alpha=bc stream=exhaustive", append(full, bat...))
 			})
 		}
 		run.Stats.Exhaustive = true
-		run.Stats.Extra["exhaustive_part"] = "all histories of length<=4 over 14 mutators (put/delete of a,b,aa,ab,ba,aba; DeleteMin; DeleteMax), " +
+		run.Stats.Extra["exhaustive_part"] = "all histories of length<=4 over 14 mutators (put/delete of b,c,bb,bc,cb,bcb; DeleteMin; DeleteMax), " +
 			"both tries, each followed by every query with every argument of the universe"
 	}
 }
